@@ -197,10 +197,12 @@ def gen_case(tape, tier):
             k = tape.pick(choices, "op")
             if k == "put":
                 nv += 1
-                ops.append({"op": "put", "key": tape.pick(KEYS, "key"), "value": f"v{nv}",
+                ops.append({"op": "put", "key": tape.pick(KEYS, "key"), "value": None if tape.coin(0.15, "none-value") else f"v{nv}",
                             "duration": tape.pick([0, 0, 1, 1, 2, 5], "duration"),
                             "ctime_step": tape.pick([0, 1, 1, 2, -1], "ctime-step")})
-            elif k in ("get", "in"):
+            elif k == "get":
+                ops.append({"op": k, "key": tape.pick(KEYS, "key"), "default": bool(tape.coin(0.4, "with-default"))})
+            elif k == "in":
                 ops.append({"op": k, "key": tape.pick(KEYS, "key")})
             elif k == "reopen":
                 ops.append({"op": "reopen", "max_size": tape.pick([None, 1, 2, 3], "disk-max")})
@@ -335,8 +337,14 @@ def run_A(case, tape):
                     if op["op"] == "put":
                         _put(c, m, op, cfg, sim, now, before, V, probes)
                     elif op["op"] == "get":
-                        got = c.get(op["key"])
-                        exp = m.get(op["key"])
+                        if op.get("default"):
+                            # a stored None is a value, not a miss: with a default the two are distinguishable
+                            pres = m.present(op["key"])
+                            got = c.get(op["key"], "<default>")
+                            exp = m.get(op["key"]) if pres else "<default>"
+                        else:
+                            got = c.get(op["key"])
+                            exp = m.get(op["key"])
                         if got != exp:
                             V("model", "get-returned-wrong-value", {"step": i, "op": op, "got": repr(got), "expected": repr(exp)})
                     elif op["op"] == "in":
